@@ -376,6 +376,34 @@ func runC17(r *mc.Run) {
 			}
 		}
 	}
+	// single valid requests with event logs that END (or begin) in a terminator or white space: every octet is measured
+	{
+		logs := []string{"grub_cmd: boot\x00", "a\x00", "line\n", "line\r\n", "line ", "\x00a", "a\x00b\x00", "text\x00\x00", " padded ", "\ufeffbom", "tab\t"}
+		for idx := 0; idx < 4; idx++ {
+			for _, lg := range logs {
+				id := fmt.Sprintf("terminated-log/idx=%d/%q", idx, lg)
+				if !r.Want(id) {
+					continue
+				}
+				sum := sha512.Sum384([]byte(lg))
+				op := c17op{name: fmt.Sprintf("eventlog(idx=%d,hash=SHA-384,log=%q)", idx, lg), valid: true, index: idx, digest: sum[:]}
+				t := world.NewTSM()
+				var err error
+				func() { defer world.Recover(&err); err = rtmr.ExtendEventLogClient(t, idx, crypto.SHA384, []byte(lg)) }()
+				out := c17Judge(r, id, op, err, t.Log, "", t)
+				var want [4][48]byte
+				h := sha512.New384()
+				h.Write(want[idx][:])
+				h.Write(sum[:])
+				copy(want[idx][:], h.Sum(nil))
+				if err == nil && t.Regs != want {
+					r.Violate("register-differs-from-extend-chain:terminated-log", id, "after extending an event log the register is not the extend of SHA-384(every octet of the log)", nil)
+					out = "bad-register"
+				}
+				r.Eval(id, true, "terminated-log:"+out)
+			}
+		}
+	}
 	// invalid requests with event logs of every size class: the register index and the hash algorithm are judged
 	// whatever the length of the log
 	{
